@@ -1,0 +1,12 @@
+//go:build !verif
+
+// Package verifhook carries the instrumentation points used by the
+// model-based verification harness. Without the build tag "verif" it is
+// empty: Enabled is a false constant and every call site is dead code.
+package verifhook
+
+// Enabled reports whether hooks are compiled in.
+const Enabled = false
+
+// Event does nothing without the verif build tag.
+func Event(point string, id uint32, kv ...int64) {}
